@@ -3,7 +3,7 @@
 //! ENV explorer: every fault point of a dump (each destination call x {Err, panic}; a hard error
 //! in the middle; every injectable libc answer; the StopProcess fail point) crossed with every
 //! placement of <=1 (thorough <=2) signal events at the dumper's syscall boundaries. After dump()
-//! returned or unwound: no thread is traced or stopped, every thread makes progress, every signal
+//! returned or unwound: no thread is traced or stopped (within 10 s), every thread makes progress, every signal
 //! that was sent is handled exactly once.
 
 use crate::dest::Fault;
@@ -85,9 +85,20 @@ impl Case {
     }
 }
 
+static BROKEN: std::sync::atomic::AtomicUsize = std::sync::atomic::AtomicUsize::new(0);
+static SKIPPED: std::sync::atomic::AtomicUsize = std::sync::atomic::AtomicUsize::new(0);
+
 pub fn make_target(n: usize) -> Puppet {
     let mut p = Puppet::spawn();
     for i in 1..n {
+        if n == 4 && i == 3 {
+            // a sandbox-helper look-alike: a busy thread whose stack pointer is null; the writer
+            // attaches to it, decides to skip it, and must let go of it again
+            let t = p.mkthread(Kind::Spin);
+            p.set_gpr(t, crate::puppet::RSP, 0);
+            p.start(t);
+            continue;
+        }
         p.add_thread(if i % 2 == 1 { Kind::Block } else { Kind::Spin });
     }
     p.quiesce();
@@ -234,7 +245,7 @@ fn run_case_inner(p: &mut Puppet, c: &Case) -> Outcome {
         }
     }
     // --- oracle 1: nobody traced or stopped (allow the kernel 2 s)
-    let deadline = std::time::Instant::now() + std::time::Duration::from_secs(2);
+    let deadline = std::time::Instant::now() + std::time::Duration::from_secs(10);
     let mut bad: Vec<String>;
     loop {
         bad = Vec::new();
@@ -272,7 +283,7 @@ fn run_case_inner(p: &mut Puppet, c: &Case) -> Outcome {
             continue;
         }
         let b0 = p.beat(i);
-        let dl = std::time::Instant::now() + std::time::Duration::from_secs(2);
+        let dl = std::time::Instant::now() + std::time::Duration::from_secs(10);
         let mut moved = false;
         while std::time::Instant::now() < dl {
             if p.threads[i].kind == Kind::Block {
@@ -292,7 +303,7 @@ fn run_case_inner(p: &mut Puppet, c: &Case) -> Outcome {
     }
     // --- oracle 3: signals handled exactly once
     let want = sent.borrow().clone();
-    let dl = std::time::Instant::now() + std::time::Duration::from_secs(2);
+    let dl = std::time::Instant::now() + std::time::Duration::from_secs(10);
     let mut got: Vec<(i32, i32)>;
     loop {
         got = p.signal_log()[log_before..].to_vec();
@@ -301,9 +312,16 @@ fn run_case_inner(p: &mut Puppet, c: &Case) -> Outcome {
         }
         std::thread::sleep(std::time::Duration::from_millis(1));
     }
-    // give duplicates a moment to show up
-    std::thread::sleep(std::time::Duration::from_millis(2));
-    got = p.signal_log()[log_before..].to_vec();
+    // give duplicates a moment to show up; a handler that was preempted between claiming its log
+    // slot and filling it in shows up as a (0, 0) entry: wait for it to be completed
+    let dl2 = std::time::Instant::now() + std::time::Duration::from_secs(3);
+    loop {
+        std::thread::sleep(std::time::Duration::from_millis(2));
+        got = p.signal_log()[log_before..].to_vec();
+        if !got.iter().any(|g| g.0 == 0 || g.1 == 0) || std::time::Instant::now() > dl2 {
+            break;
+        }
+    }
     for (tid, sig) in &want {
         let n_sent = want.iter().filter(|w| w == &&(*tid, *sig)).count();
         let n_got = if *tid < 0 { got.iter().filter(|g| g.1 == *sig).count() } else { got.iter().filter(|g| g == &&(*tid, *sig)).count() };
@@ -391,7 +409,7 @@ fn libc_faults(p: &Puppet) -> Vec<FaultSpec> {
 }
 
 pub fn run(ctx: &Ctx, rep: &mut Report) {
-    rep.rule = "fault points (every destination call x {Err, panic}, a hard error mid-dump, every injectable libc answer of the baseline trace, the StopProcess fail point) each with 0 events, and every placement of one signal event (thread-directed SIGUSR1 / SIGRTMIN to each thread, process-directed SIGUSR2) at ~18 syscall boundaries under {no fault, StopProcess fail point, a destination error, an attach failure}; thorough: all pairs of events with different signal numbers at two placements; N in {3, 1}. nontrivial = runs with at least one signal event or a fault that was actually hit".into();
+    rep.rule = "fault points (every destination call x {Err, panic}, a hard error mid-dump, every injectable libc answer of the baseline trace, the StopProcess fail point) each with 0 events, and every placement of one signal event (thread-directed SIGUSR1 / SIGRTMIN to each thread, process-directed SIGUSR2) at ~18 syscall boundaries under {no fault, StopProcess fail point, a destination error, an attach failure}; thorough: all pairs of events with different signal numbers at two placements; N in {3, 1}, plus a 5-thread target whose spin threads exit between enumeration and attach and a 4-thread target with a null-stack-pointer thread. nontrivial = runs with at least one signal event or a fault that was actually hit".into();
     rep.assume("the kernel's choice among runnable target threads while the dumper is blocked is not controlled; PTRACE_DETACH/PTRACE_CONT/SIGCONT are never made to fail");
     if let Some(case) = &ctx.replay {
         let Some(c) = Case::from_json(case) else {
@@ -454,6 +472,14 @@ pub fn run(ctx: &Ctx, rep: &mut Report) {
             }
         }
     }
+    // a target with a null-stack-pointer thread (attached, then skipped)
+    for f in [FaultSpec::None, FaultSpec::StopFailpoint, FaultSpec::BadAppRegion, FaultSpec::DestErr(5), FaultSpec::DestPanic(40), FaultSpec::Libc("attach:t1".into(), Alt::Errno(libc::EPERM))] {
+        all.push(Case { n: 4, fault: f.clone(), events: vec![] });
+        for (thread, sig) in [(3usize, 0usize), (3, 1), (1, 0)] {
+            all.push(Case { n: 4, fault: f.clone(), events: vec![Event { at: "attach:t3".into(), thread, sig }] });
+            all.push(Case { n: 4, fault: f.clone(), events: vec![Event { at: "opendir:/proc/P/task#0".into(), thread, sig }] });
+        }
+    }
     // thread exits between enumeration and attach: every subset of the two spin threads of a 5-thread
     // target, at two placements, with and without a signal event aimed at a thread that exits / stays
     for mask in [0u32, 1 << 2, 1 << 4, (1 << 2) | (1 << 4)] {
@@ -470,7 +496,7 @@ pub fn run(ctx: &Ctx, rep: &mut Report) {
     // run: chunks share one puppet each
     let chunks: Vec<Vec<Case>> = {
         let mut by_n: Vec<Vec<Case>> = Vec::new();
-        for n in [3usize, 1, 5] {
+        for n in [3usize, 1, 5, 4] {
             let cs: Vec<Case> = all.iter().filter(|c| c.n == n).cloned().collect();
             let per = cs.len().div_ceil(if n == 3 { 12 } else { 4 }).max(1);
             for part in cs.chunks(per) {
@@ -486,10 +512,19 @@ pub fn run(ctx: &Ctx, rep: &mut Report) {
             if !p.alive() {
                 p = make_target(c.n);
             }
+            // a change that leaves targets stopped/attached makes every following case fail the same
+            // (slow) way: after a few such failures the rest of the schedule is skipped, not explored
+            if BROKEN.load(std::sync::atomic::Ordering::SeqCst) >= 4 {
+                SKIPPED.fetch_add(1, std::sync::atomic::Ordering::SeqCst);
+                continue;
+            }
             let o = run_case(&mut p, c);
             let broken = o.respawn || o.fails.iter().any(|f| f.0.starts_with("left-") || f.0 == "main-thread-dead");
             out.push((c.clone(), o));
             if broken {
+                if !matches!(out.last().map(|x: &(Case, Outcome)| x.1.respawn && x.1.fails.is_empty()), Some(true)) {
+                    BROKEN.fetch_add(1, std::sync::atomic::Ordering::SeqCst);
+                }
                 p = make_target(c.n); // do not let one failure poison the following cases
             }
         }
@@ -521,9 +556,14 @@ pub fn run(ctx: &Ctx, rep: &mut Report) {
             }
         }
     }
+    let skipped = SKIPPED.load(std::sync::atomic::Ordering::SeqCst);
+    if skipped > 0 {
+        rep.exhaustive = false;
+    }
+    rep.set("schedules_skipped_after_repeated_stuck_targets", json!(skipped));
     rep.set("schedules", json!({"total": all.len(), "with_signal_delivered_to_the_sender_api": with_signal, "tracer_saw_a_non_SIGSTOP_stop_(reinjection_path)": reinject, "fault_actually_hit": hit, "dump_ok": kinds[0], "dump_err": kinds[1], "dump_panicked_(injected)": kinds[2]}));
     rep.states = rep.evaluations;
     rep.transitions = rep.evaluations;
     rep.traces = rep.evaluations;
-    rep.exhaustive = true;
+    rep.exhaustive = skipped == 0;
 }
